@@ -201,25 +201,62 @@ def dynamic_part(ctx, lines, facts):
         ctx.sample("%s %s F=%s %s args=%s -> %s effect=%s (model: %s)" % (short(c[1]), unhex(c[2]), c[3], c[4], unhex(c[5]), c[6], c[7], pred[(c[1], c[2], c[3])]))
 
 
+MARK = re.compile(r'"/\.c08/(case|end|nest)/(\d+)/([^"]*)"')
+SENTINEL_NAMES = ("data.txt", "victim.txt", "script.lua", "new.txt", "renamed.txt", "spawned", "/sub", "/tmp/", "/cwd/")
+
+
 def strace_part(ctx, h, sentinel):
-    """thorough: run the io/os/package/base functions once more under strace and look for file/process/network
-    system calls issued while iosafe was required.  The harness prints marker files around each case?  No: the
-    trace is attributed coarsely — any execve / connect at all by a child of the harness, any open of a sentinel
-    path — and the case-level attribution comes from the in-process observers."""
+    """thorough: the quick-volume harness once more under `strace -f -e trace=%file,%process,%network`.  The harness
+    brackets every case with a marker system call (access("/.c08/case/<F>/<function>") ... "/.c08/end/..."), so
+    every traced call is attributed to a case: while a context requiring iosafe is running, no process may be
+    exec'ed, no socket connected/bound, and no path inside the sentinel directory may be named in a system call."""
     if not shutil.which("strace"):
         ctx.notes.append("strace not installed: skipped")
         return
     log = os.path.join(common.BUILD, "c08.strace")
-    lines = run_harness(ctx, h, "quick", sentinel, filt="lib/iolib.popen", strace_log=log)
-    execs = 0
+    os.environ["C08_MARKERS"] = "1"
+    try:
+        run_harness(ctx, h, "quick", sentinel, strace_log=log)
+    finally:
+        del os.environ["C08_MARKERS"]
+    cur = None  # (F, function) of the case in progress
+    n_cases = n_iosafe = execs_allowed = 0
     for l in open(log, errors="replace"):
-        if re.search(r"\bexecve\(", l) and "/bin/sh" in l:
-            execs += 1
-    ctx.extra["strace_execve_bin_sh"] = execs
-    refused_or_iosafe = [l for l in lines if l.startswith("case ") and int(l.split(" ")[3]) & 4]
-    ctx.count("strace-cases", len(refused_or_iosafe))
-    if execs and not any(v.key.startswith("iosafe-effect:lib/iolib.popen") for v in ctx.violations):
-        ctx.violation("strace:popen-execve", "strace saw /bin/sh started by io.popen but the in-process observer did not", "c08 strace\n", found_input=False)
+        m = MARK.search(l)
+        if m:
+            if m.group(1) == "case":
+                cur = (int(m.group(2)), m.group(3))
+                n_cases += 1
+                n_iosafe += 1 if cur[0] & 4 else 0
+            else:
+                cur = None
+            continue
+        if cur is None:
+            continue
+        call = re.match(r"\d+\s+(\w+)\(", l)
+        if not call:
+            continue
+        name = call.group(1)
+        bad = None
+        if name in ("execve", "execveat"):
+            bad = "exec"
+            if not cur[0] & 4:
+                execs_allowed += 1
+        elif name in ("connect", "bind", "listen", "accept", "accept4", "sendto"):
+            bad = "network"
+        elif sentinel in l and any(x in l for x in SENTINEL_NAMES) and name not in ("inotify_add_watch",):
+            bad = "file:" + name
+        if bad and cur[0] & 4:
+            ctx.violation("strace:%s:%s" % (cur[1].replace("github.com_arnodel_golua_", ""), bad.split(":")[0]),
+                          "system call trace: while a context requiring iosafe (flags %d) was running %s, the process issued %s"
+                          % (cur[0], cur[1], l.strip()[:200]),
+                          "c08 strace\nflags %d function %s\n%s\n" % (cur[0], cur[1], l.strip()))
+    ctx.extra["strace_cases"] = n_cases
+    ctx.extra["strace_cases_requiring_iosafe"] = n_iosafe
+    ctx.extra["strace_execve_without_iosafe"] = execs_allowed
+    ctx.count("strace-cases", n_cases)
+    ctx.obligations.append({"name": "strace_attribution_live", "ok": n_cases > 1000 and execs_allowed > 0, "axioms": [],
+                            "note": "markers found in the trace and io.popen's /bin/sh seen where iosafe is not required"})
 
 
 def run(ctx):
